@@ -55,6 +55,9 @@ pub struct RcCase {
     /// use up the cooperative budget in the poll they complete in
     #[serde(default)]
     pub setter_order: u8,
+    /// unused (the reconnect callbacks exist only with the crate's `tracing` feature)
+    #[serde(default)]
+    pub listeners: bool,
     /// sequential requests; per request a script of (latency ms, outcome: 0 ok, 1 reconnectable, 2 other error)
     pub requests: Vec<Vec<(u64, u8)>>,
 }
@@ -84,9 +87,10 @@ fn case_strategy(_tier: Tier) -> BoxedStrategy<RcCase> {
         (
             prop_oneof![1 => Just(vec![]), 2 => prop::collection::vec(prop_oneof![1 => Just(0u64), 2 => 0u64..=25], 3)],
             prop_oneof![2 => Just(0u8), 1 => 0u8..8, 1 => 128u8..136, 1 => 64u8..72],
+            Just(false),
         ),
     )
-        .prop_map(|(max_attempts, policy, retry_on_reconnect, predicate, mut requests, concurrent, step_ms, (starts, setter_order))| {
+        .prop_map(|(max_attempts, policy, retry_on_reconnect, predicate, mut requests, concurrent, step_ms, (starts, setter_order, listeners))| {
             if max_attempts.map_or(true, |m| m > 1_000) {
                 // unlimited (or practically unlimited) attempts: make every script end in a
                 // success so the case terminates
@@ -103,6 +107,7 @@ fn case_strategy(_tier: Tier) -> BoxedStrategy<RcCase> {
                 step_ms,
                 starts,
                 setter_order,
+                listeners,
                 requests,
             }
         });
@@ -130,6 +135,7 @@ fn case_strategy(_tier: Tier) -> BoxedStrategy<RcCase> {
                 step_ms: 1,
                 starts: vec![],
                 setter_order: 0,
+                listeners: false,
                 requests: vec![script],
             }
         });
